@@ -72,7 +72,7 @@ main(void)
 				puts("NULL");
 			} else {
 				/* bounded print: the name must be NUL terminated inside the image */
-				printf("OK %.300s\n", zn);
+				printf("OK %.4096s\n", zn);
 			}
 			free(key);
 			break;
